@@ -39,6 +39,7 @@ F=[
  ("F30","C19","reports and ignores requested IDs that are absent from the .hap","simphenotype with a .hap file and --id / --ids-file naming an ID the file does not hold (beside known ones): the run failed with the unrelated error 'The --repeats option must be specified when simulating a mix of both haplotypes and repeats' (absent IDs were counted as repeats) instead of reporting and ignoring the unknown ID; found when the vacuous simphenotype cases of C19/cli_vs_api (wrong genotype fixture: both entry points failed alike) were repaired"),
  ("F31","C15","standardize scales each column by a power of two","Phenotypes.standardize(): a non-constant column of extreme magnitude (1e-200, 1e-300, subnormals, 1e+200 …, all inside the stated range) was zeroed because the squares of its deviations underflow or overflow; around 1e-160 the result had variance 0.99997 (the squares are subnormal). Noted on the clean tree by a round-9 sub-agent; reproduced by C15/table_operations once columns of extreme magnitude were generated"),
  ("F32","C12","ignores the effects of variants that are missing","PhenoSimulator.run (simphenotype) with an effect whose variant the genotypes do not hold: the absent variant's beta was applied, by broadcasting, to the dosages of the variants that were found (a .snplist naming v1 (0.5) and v2 (0.25) with genotypes holding only v1 gave 0.75 * dosage(v1), exit status 0); with two of three effects found the run crashed with a shape error. Found when phenotype simulation was added to C12's histories as a by-ID query (a simulator asked again after a QC step had discarded one of its variants)"),
+ ("F33","C15","standardize centres each column a second time","Phenotypes.standardize(): a column whose spread is tiny compared to its offset (adjacent doubles such as -9.0 and -9.000000000000002, or 1, 1.0000000000000002, 1) was standardised from a mean that is off by its rounding error: (0, -1.414) with mean -0.707 and variance 0.5 instead of (1, -1). Reported by the thorough generation of C15/table_operations (values next to -9, added in round 11) on the unchanged tree"),
  ("F23","C04","aligns the breakpoints with the genotype","transform --ancestry with a .bp file listing the samples in another order than the genotype file: every sample gets another sample's local ancestry"),
 ]
 out=[dict(id=i,property=p,status="fixed",commit=sha(pat),what=w) for i,p,pat,w in F]
